@@ -87,6 +87,9 @@ func c14Run(w *W) {
 			w.Failf("C14/dial-after-close", "a connection attempt started at %v, after Close returned at %v", w.Now(), b.closedAt)
 		}
 	}
+	b.onReject = func(why string) {
+		b.events = append(b.events, dEv{"local-reject", w.Now(), w.Step(), false})
+	}
 	ep.OnPipe = func(p *MsgPipe) {
 		b.accepted = append(b.accepted, p)
 		p.OnClose = func() {}
@@ -242,13 +245,11 @@ func (b *dialBench) checkGaps(w *W, final bool) {
 	streak := 0
 	for i := 1; i < len(b.events); i++ {
 		e, p := b.events[i], b.events[i-1]
-		if e.kind == "drop" {
+		if e.kind == "drop" || e.kind == "local-reject" {
 			continue
 		}
 		// e is an attempt; p is what preceded it
-		if p.kind == "attempt-ok" {
-			// an attempt right after a successful one without a drop in between:
-			// the connection must have been rejected locally (hook / protocol)
+		if p.kind == "local-reject" {
 			w.Probe("redial-after-local-rejection")
 		}
 		gap := e.at - p.at
@@ -293,6 +294,9 @@ func (b *dialBench) checkGaps(w *W, final bool) {
 	// by an attempt within maxGap
 	if n := len(b.events); n > 0 && !b.closed {
 		last := b.events[n-1]
+		if last.kind == "local-reject" {
+			w.Probe("local-rejection-needs-redial")
+		}
 		if last.kind != "attempt-ok" && w.Now()-last.at > maxGap {
 			w.Failf("C14/no-redial", "%s at %v, now %v, no further attempt although the dialer is open (ReconnectTime %v, MaxReconnectTime %v)", last.kind, last.at, w.Now(), r, M)
 			return
